@@ -682,3 +682,8 @@ def _rv_expr(body, rv):
     if k == 'ref': return expr(body, {'k': 'copy', 'pl': rv['pl']})
     if k == 'agg': return ('agg', rv['adt'], [expr(body, o) for o in rv['ops']])
     return ('local', -1)
+
+
+def own_fields(e):
+    """the projection fields applied last (outermost) to an expression"""
+    return list(e[2]) if e[0] in ('proj', 'place') else []
